@@ -463,6 +463,16 @@ def corpus():
     # (seeded C14_f: Path::with_extension replaced what follows the last dot, acme_proto_0.ts for both crates)
     mk('dotted-crate-names', {'acme-proto-0.3/src/lib.rs': '#[typeshare]\npub struct P3 { pub x: u8 }\n', 'acme-proto-0.4/src/lib.rs': '#[typeshare]\npub struct P4 { pub x: u8 }\n',
                               'v1.2.3/src/lib.rs': '#[typeshare]\npub struct V1 { pub x: u8 }\n', 'b/src/lib.rs': '#[typeshare]\npub struct B1 { pub x: u8 }\n'})
+    # a type reached through a crate that merely re-exports it (the import names the facade, the type is generated by a third crate:
+    # the fallback finds it), while ANOTHER file of the importing crate glob-imports the facade (seeded C14_g: an explicit import of a
+    # glob-imported crate was taken for redundant and skipped, so the fallback never ran)
+    mk('reexport-through-facade-next-to-glob', {'core-types/src/lib.rs': '#[typeshare]\npub struct Money { pub cents: u32 }\n#[typeshare]\npub enum Side { Buy, Sell }\n',
+                                                'facade/src/lib.rs': 'pub use core_types::{Money, Side};\n#[typeshare]\npub struct F1 { pub x: u8 }\n',
+                                                'app/src/lib.rs': 'use facade::*;\n#[typeshare]\npub struct Uses { pub f: F1 }\n',
+                                                'app/src/orders.rs': 'use facade::Money;\nuse facade::Side;\n#[typeshare]\npub struct Order { pub m: Money, pub s: Side }\n'}, reps=4, mix=True)
+    mk('reexport-through-facade', {'core-types/src/lib.rs': '#[typeshare]\npub struct Money { pub cents: u32 }\n',
+                                   'facade/src/lib.rs': 'pub use core_types::Money;\n#[typeshare]\npub struct F1 { pub x: u8 }\n',
+                                   'app/src/lib.rs': 'use facade::Money;\n#[typeshare]\npub struct Order { pub m: Money }\n'})
     mk('generic-param-not-a-reference', {'a/src/lib.rs': '#[typeshare]\npub struct U { pub x: u8 }\n', 'b/src/lib.rs': 'use a::U;\n#[typeshare]\npub struct B1<U> { pub f: U }\n'})
     return out
 
